@@ -23,6 +23,7 @@ structure H where
   got : Nat
   lost : List Nat
   failAt : Nat
+  cut : Option Nat
   qs : Array Q
 
 def hex16 (x : UInt64) : String :=
@@ -63,16 +64,36 @@ def parseSched (s : String) : Option (List Act) :=
     match c with
     | 'p' => some Act.parse
     | 's' => some Act.start
-    | 'w' => some Act.write
+    | 'w' => some (Act.write none)
+    | 'h' => some (Act.write (some 0))      -- short write: everything is queued
+    | 'l' => some (Act.flush 1)
     | 'f' => some Act.finish
     | _ => none
 
-/-- the server side of one connection: request k's response is the single token k (one conn write) -/
+def mkCfg (sync : Bool) (qs : List Q) : Cfg Nat :=
+  -- request k's response is two conn writes of one token each: 2k (head part) and 2k+1 (tail part)
+  { reqs := qs.mapIdx fun i q =>
+      { major := q.major, minor := q.minor, connVals := q.conn, pieces := [[2 * i], [2 * i + 1]] },
+    sync }
+
+/-- the server side of one connection under the schedule of the K line, then drained -/
 def serve (sync : Bool) (sched : List Act) (qs : List Q) : St Nat :=
-  let reqs : List (Req Nat) := qs.mapIdx fun i q =>
-    { major := q.major, minor := q.minor, connVals := q.conn, pieces := [[i]] }
-  let cfg : Cfg Nat := { reqs, sync }
-  drain cfg (4 * qs.length + 8) init sched
+  drain (mkCfg sync qs) (6 * qs.length + 8) init sched
+
+/-- the schedule of the known finding "close drops the backlog": from response `i` on the kernel stops
+    taking bytes (the tail part of response i and everything behind it is queued); the job of the first
+    closing request finishes with the queue non-empty and the close releases it -/
+def serveCut (sync : Bool) (i : Nat) (qs : List Q) : St Nat :=
+  let n := qs.length
+  let job (k : Nat) : List Act :=
+    if k < i then [.start, .write none, .write none, .finish]
+    else if k == i then [.start, .write none, .write (some 0), .finish]
+    else [.start, .write none, .write none, .finish]
+  run (mkCfg sync qs) init (List.replicate n Act.parse ++ (List.range n).flatMap job)
+
+def answeredIn (s : St Nat) (i : Nat) : Bool := s.wire.contains (2 * i) && s.wire.contains (2 * i + 1)
+def partialIn (s : St Nat) (i : Nat) : Bool := s.wire.contains (2 * i) && !s.wire.contains (2 * i + 1)
+def answeredCount (s : St Nat) : Nat := s.wire.length / 2
 
 /-- split a history into the connections a reconnecting client (net/http, nbhttp.Client pool) uses:
     a new connection after every request whose close decision is true -/
@@ -88,14 +109,17 @@ def outcome (sync : Bool) (h : H) : List String :=
   let qs := h.qs.toList
   match h.kind with
   | "raw" =>
-    let s := serve sync h.sched qs
+    let s := match h.cut with
+      | some i => serveCut sync i qs
+      | none => serve sync h.sched qs
     qs.mapIdx fun i q =>
-      if s.wire[i]? == some i then
-        answeredLine h.cid q (if i + 1 == s.wire.length && s.closed then "1" else "0") "x"
+      if answeredIn s i then
+        answeredLine h.cid q (if 2 * (i + 1) == s.wire.length && s.closed then "1" else "0") "x"
+      else if partialIn s i && s.dropped then s!"R {q.rid} bad=truncated cb=x"
       else s!"R {q.rid} none cb=x"
   | "nbc" =>
     let s := serve sync h.sched qs
-    let m := s.wire.length
+    let m := answeredCount s
     -- the client: n pipelined Do, the responses its parser delivered (environment input `got`, at most
     -- what the server sent), then the close (server's or the harness's ClientConn.Close)
     let got := min h.got m
@@ -104,7 +128,7 @@ def outcome (sync : Bool) (h : H) : List String :=
     let c := ClientFifo.run {} ops
     qs.mapIdx fun i q =>
       let cnt := ClientFifo.count c i
-      if c.calls.contains (i, ClientFifo.Out.resp (some i)) && s.wire[i]? == some i then
+      if c.calls.contains (i, ClientFifo.Out.resp (some i)) && answeredIn s i then
         answeredLine h.cid q "x" (toString cnt)
       else s!"R {q.rid} none cb={cnt}"
   | "nbx" =>
@@ -114,7 +138,7 @@ def outcome (sync : Bool) (h : H) : List String :=
     let k := min h.failAt qs.length
     let rest := qs.drop (k + 1)
     let s := serve sync h.sched rest
-    let m := min h.got s.wire.length
+    let m := min h.got (answeredCount s)
     let ops : List ClientFifo.Op :=
       List.replicate k (ClientFifo.Op.do_ true true) ++ (if k < qs.length then [ClientFifo.Op.do_ true false] else []) ++
       List.replicate rest.length (ClientFifo.Op.do_ true true) ++
@@ -131,7 +155,7 @@ def outcome (sync : Bool) (h : H) : List String :=
       let s := serve sync h.sched seg
       seg.mapIdx fun i q =>
         -- pool client: one exchange per Do; a callback that got an error is an environment input (`lost=`)
-        if s.wire[i]? == some i && !h.lost.contains q.rid then answeredLine h.cid q "x" cb
+        if answeredIn s i && !h.lost.contains q.rid then answeredLine h.cid q "x" cb
         else s!"R {q.rid} none cb={cb}"
   | _ => qs.map fun _ => "bad-op"
 
@@ -191,8 +215,9 @@ partial def loop (h : IO.FS.Stream) (s : DS) : IO Unit := do
         let got := ((Drv.field ws "got").bind String.toNat?).getD 0
         let lost := (((Drv.field ws "lost").getD "").splitOn ",").filterMap String.toNat?
         let failAt := ((Drv.field ws "fail").bind String.toNat?).getD 0
+        let cut := (Drv.field ws "cut").bind String.toNat?
         IO.println "ok"
-        loop h { s with cur := some { cid, kind, sched, got, lost, failAt, qs := #[] } }
+        loop h { s with cur := some { cid, kind, sched, got, lost, failAt, cut, qs := #[] } }
       else
         IO.println "bad-op"
         loop h s
